@@ -29,6 +29,12 @@ pub enum Reply {
     Err,
     Disconnect,
     Silence,
+    /// an empty bulk string
+    Empty,
+    /// the expected value without its last character
+    Prefix,
+    /// the expected value followed by one more digit
+    Extended,
 }
 
 #[derive(Clone, Copy, Debug, Serialize, Deserialize, PartialEq, Eq, Hash)]
@@ -39,6 +45,9 @@ pub enum Step {
     Take { h: u8 },
     /// use a connection taken out of the pool
     UseTaken { t: u8 },
+    /// n rounds of get + return of the same slot, answered with correct echoes (the
+    /// script of replies is not consumed): long-lived pools, multi-digit PING values
+    Churn { n: u16 },
 }
 
 #[derive(Clone, Debug, Serialize, Deserialize, PartialEq, Eq, Hash)]
@@ -70,6 +79,10 @@ struct Server {
     conns: Vec<ConnS>,
     replies: Vec<Reply>,
     n_recycle: usize,
+    /// inside a Churn step: echo, do not consume the script
+    churning: bool,
+    /// a PING argument that had been used before on this pool
+    repeated_ping: Option<String>,
     pings_seen: Vec<String>,
     trace: Vec<String>,
 }
@@ -137,9 +150,15 @@ async fn serve(srv: Srv, id: usize, mut s: tokio::net::UnixStream) {
                 let mut answered = None;
                 match name.as_str() {
                     "PING" if !args.is_empty() => {
-                        let i = g.n_recycle;
-                        g.n_recycle += 1;
-                        let mut r = g.replies.get(i).copied().unwrap_or(Reply::Echo);
+                        let mut r = Reply::Echo;
+                        if !g.churning {
+                            let i = g.n_recycle;
+                            g.n_recycle += 1;
+                            r = g.replies.get(i).copied().unwrap_or(Reply::Echo);
+                        }
+                        if g.repeated_ping.is_none() && g.pings_seen.contains(&args[0]) {
+                            g.repeated_ping = Some(args[0].clone());
+                        }
                         if r == Reply::Stale && g.pings_seen.is_empty() {
                             r = Reply::Other;
                         }
@@ -159,6 +178,9 @@ async fn serve(srv: Srv, id: usize, mut s: tokio::net::UnixStream) {
                             Reply::Err => out = b"-ERR scripted failure\r\n".to_vec(),
                             Reply::Disconnect => disconnect = true,
                             Reply::Silence => silent = true,
+                            Reply::Empty => out = bulk(""),
+                            Reply::Prefix => out = bulk(&args[0][..args[0].len().saturating_sub(1)]),
+                            Reply::Extended => out = bulk(&format!("{}7", args[0])),
                         }
                         g.pings_seen.push(args[0].clone());
                     }
@@ -291,10 +313,40 @@ async fn run_case(case: &Case, srv: Srv, out: &mut Out) {
     let mut condemned: BTreeSet<usize> = BTreeSet::new();
     let mut bad_replies = 0u32;
 
+    // Churn{n} = n x (Get, Return of the connection just obtained), without the settling pauses
+    let mut steps: Vec<(usize, Step, bool)> = vec![];
     for (si, step) in case.steps.iter().enumerate() {
-        out.step = si;
-        lock(&srv).trace.push(format!("Step {} {:?}", si, step));
         match *step {
+            Step::Churn { n } => {
+                for _ in 0..n {
+                    steps.push((si, Step::Get, true));
+                    steps.push((si, Step::Return { h: 255 }, true));
+                }
+            }
+            s => steps.push((si, s, false)),
+        }
+    }
+    let mut churned = 0usize;
+    for (si, step, fast) in steps {
+        out.step = si;
+        {
+            let mut g = lock(&srv);
+            g.churning = fast;
+            if !fast || g.trace.len() < 400 {
+                g.trace.push(format!("Step {} {:?}{}", si, step, if fast { " (churn)" } else { "" }));
+            }
+        }
+        if let Some(v) = lock(&srv).repeated_ping.clone() {
+            fail!("ping-value-reused", "PING {:?} was sent although that value had already been used on this pool ({} recycles so far)", v, lock(&srv).pings_seen.len());
+        }
+        macro_rules! settle {
+            () => {
+                if !fast {
+                    settle().await
+                }
+            };
+        }
+        match step {
             Step::Get => {
                 if held.len() >= case.max_size as usize {
                     continue;
@@ -306,7 +358,7 @@ async fn run_case(case: &Case, srv: Srv, out: &mut Out) {
                     Ok(Err(e)) => fail!("get-failed", "pool.get() failed although the server accepts new connections: {}", e),
                     Ok(Ok(c)) => c,
                 };
-                settle().await;
+                settle!();
                 let Some(id) = whoami(&mut conn).await else {
                     fail!("unusable-connection-handed-out", "get() returned a connection that cannot answer a command")
                 };
@@ -382,10 +434,13 @@ async fn run_case(case: &Case, srv: Srv, out: &mut Out) {
             Step::Return { h } => {
                 let Some(i) = pick(h, held.len()) else { continue };
                 let (c, id) = held.remove(i);
-                settle().await;
+                settle!();
                 let at = lock(&srv).conns[id].log.len();
                 drop(c);
-                settle().await;
+                settle!();
+                if fast {
+                    churned += 1;
+                }
                 models.entry(id).or_default().returned_at = Some(at);
             }
             Step::Watch { h } => {
@@ -410,6 +465,7 @@ async fn run_case(case: &Case, srv: Srv, out: &mut Out) {
                 models.entry(id).or_default().taken = true;
                 taken.push((raw, id));
             }
+            Step::Churn { .. } => unreachable!(),
             Step::UseTaken { t } => {
                 let Some(i) = pick(t, taken.len()) else { continue };
                 let id = taken[i].1;
@@ -432,6 +488,15 @@ async fn run_case(case: &Case, srv: Srv, out: &mut Out) {
             Ok(Err(e)) => fail!("capacity-probe", "the pool could not hand out its full capacity at the end: {}", e),
             Err(_) => fail!("capacity-probe", "the pool could not hand out its full capacity at the end: get() hung"),
         }
+    }
+    if let Some(v) = lock(&srv).repeated_ping.clone() {
+        fail!("ping-value-reused", "PING {:?} was sent although that value had already been used on this pool", v);
+    }
+    if churned >= 10 {
+        out.labels.push("churn>=10-recycles".into());
+    }
+    if churned >= 256 {
+        out.labels.push("churn>=256-recycles".into());
     }
     out.nontrivial = out.nontrivial || bad_replies > 0;
     if bad_replies > 0 {
@@ -457,6 +522,9 @@ fn case(thorough: bool) -> BoxedStrategy<Case> {
         2 => Just(Reply::Err),
         2 => Just(Reply::Disconnect),
         1 => Just(Reply::Silence),
+        1 => Just(Reply::Empty),
+        2 => Just(Reply::Prefix),
+        2 => Just(Reply::Extended),
     ];
     let step = prop_oneof![
         10 => Just(Step::Get),
@@ -464,6 +532,7 @@ fn case(thorough: bool) -> BoxedStrategy<Case> {
         3 => any::<u8>().prop_map(|h| Step::Watch { h }),
         1 => any::<u8>().prop_map(|h| Step::Take { h }),
         1 => any::<u8>().prop_map(|t| Step::UseTaken { t }),
+        1 => prop_oneof![3 => 1u16..40, 1 => 200u16..600].prop_map(|n| Step::Churn { n }),
     ];
     (1u8..=3, prop::collection::vec(reply, 0..10), prop::collection::vec(step, 1..=maxlen))
         .prop_map(|(max_size, replies, steps)| Case { max_size, replies, steps })
@@ -481,7 +550,7 @@ impl Engine for Redx {
     }
 
     fn rule(_prop: &str) -> String {
-        "case = pool size 1..=3, a script of answers to the n-th recycling PING (correct echo / stale echo / other value / -ERR / disconnect / silence) and a history of get / return / WATCH / Connection::take / use-taken steps against an in-process scripted RESP server on a Unix socket; distinct by hash of the case. Non-trivial: at least one recycling PING was not answered with the correct echo, or a connection was reused after its previous user left a WATCH".into()
+        "case = pool size 1..=3, a script of answers to the n-th recycling PING (correct echo / stale echo / other value / empty string / expected value minus its last character / expected value plus a digit / -ERR / disconnect / silence) and a history of get / return / WATCH / Connection::take / use-taken / churn (up to 600 echoed recycles, so PING values grow to several digits and pass 256) steps against an in-process scripted RESP server on a Unix socket; distinct by hash of the case. Non-trivial: at least one recycling PING was not answered with the correct echo, or a connection was reused after its previous user left a WATCH".into()
     }
 
     fn assumptions(_prop: &str) -> Vec<String> {
